@@ -42,6 +42,8 @@ func c19Coefficients(tier string) []string {
 		"1" + z(34),             // 10^34 (35 digits)
 		"1" + z(33) + "1",       // 10^34+1
 		"1234567890123456789012345678901234567891", // 40 digits
+		// machine-word boundaries: 2^32-1, 2^32, 2^63-1, 2^63, 2^64-1, 2^64
+		"4294967295", "4294967296", "9223372036854775807", "9223372036854775808", "18446744073709551615", "18446744073709551616",
 	}
 	if tier == "thorough" {
 		cs = append(cs, "2", "3", "7", "11", "101", "999999", "1"+z(6),
